@@ -22,7 +22,14 @@ RULE = ("part 1 (complete comparison of constants): every fixed catalog gate (h 
         "the exact amp_num; every logical state must pass heralds+post-selection, the amplitude matrix must equal the "
         "source unitary (own gate-list simulator; qiskit's Operator as second oracle) up to one complex factor, and "
         "(small cases) no non-logical passing output may carry amplitude. Non-trivial: at least one two-qubit gate or "
-        "a non-diagonal one-qubit gate; distinct by gate list + flag. Every exact request is cost-bounded before it is "
+        "a non-diagonal one-qubit gate; distinct by gate list + flags. Half of the circuits of a framework are converted by "
+        "ONE converter object reused across the run (multi-parameter gates outside the catalog — u, r, U2Gate, U3Gate, a "
+        "3-parameter myQLM AbstractGate — then share some but not all parameters with earlier gates of the same name: "
+        "same first angle, same prefix, same values in another order), the others by fresh objects; a failure that a "
+        "fresh object does not show is shrunk over (earlier conversions, circuit). Catalog histories: every gate item "
+        "is built, what was built is modified in place (inverse h/v, parameters, added component, through circuit, "
+        "leaves and processor), and built again: the new build must have the model's unitary and share no component "
+        "object with another build. Every exact request is cost-bounded before it is "
         "sent (4^q n! n per request, total budget, runner timeout, wall-clock deadline); circuits beyond the bound go "
         "through the implementation's SLOS amplitudes instead (conv.route=slos) or are skipped (conv.route=skipped).")
 TRUSTED = ["model: coq/Model/Catalog.v, CatalogX.v, coq/Lib/Quad.v (hand-written component lists; tied by the complete "
@@ -207,7 +214,9 @@ def gate_matrix(name, par):
     if name in ("sx", "sxdg"):
         a, b = (0.5 + 0.5j, 0.5 - 0.5j) if name == "sx" else (0.5 - 0.5j, 0.5 + 0.5j)
         return [[a, b], [b, a]]
-    if name == "u":             # qiskit U(theta, phi, lam)
+    if name == "qu2":           # qiskit U2Gate(phi, lam) = U(pi/2, phi, lam)
+        name, par = "u", [math.pi / 2] + list(par)
+    if name in ("u", "qu3", "ug"):      # qiskit U / U3Gate (theta, phi, lam); myQLM AbstractGate UG with the same matrix
         th, ph, lm = par
         return [[math.cos(th / 2), -cmath.exp(1j * lm) * math.sin(th / 2)],
                 [cmath.exp(1j * ph) * math.sin(th / 2), cmath.exp(1j * (ph + lm)) * math.cos(th / 2)]]
@@ -261,8 +270,35 @@ TWO_Q = {"qiskit": ["cx", "cz", "swap"], "myqlm": ["cx", "cz", "swap"], "cqasm":
 PARAM = {"rx", "ry", "rz", "p"}
 # one-qubit gates that are NOT catalog gates: the converter fits a template to their matrix
 # (_create_generic_1_qubit_gate: identity / phase on rail 1 / phase on rail 0 / two phases / generic two-mode circuit)
-GENERIC = {"qiskit": ["u2", "u2", "u2", "sx", "sxdg", "u", "r", "id"], "myqlm": ["u2", "u2", "u2", "id"], "cqasm": []}
-GENERIC_NAMES = {"u2", "sx", "sxdg", "u", "r", "id"}
+GENERIC = {"qiskit": ["u2", "u2", "u2", "sx", "sxdg", "u", "u", "r", "r", "qu2", "qu3", "id"],
+           "myqlm": ["u2", "u2", "u2", "ug", "ug", "id"], "cqasm": []}
+GENERIC_NAMES = {"u2", "sx", "sxdg", "u", "r", "qu2", "qu3", "ug", "id"}
+# non-catalog gates with SEVERAL parameters (the converters' gate sequence carries the first one only)
+MULTI = {"u": 3, "qu3": 3, "ug": 3, "r": 2, "qu2": 2}
+ANGLE_POOL = [0.0, math.pi / 2, -math.pi / 2, math.pi, math.pi / 4, -math.pi / 4, 0.3, 1.1, -0.7, 2.0]
+
+
+def rand_multi_params(rng, name, earlier):
+    """parameters of a multi-parameter generic gate; `earlier` = parameter lists of gates of the same name already
+    used by the same converter object (this circuit and the previous ones of the session): with probability 2/3 the new
+    gate SHARES some but not all of them (same first angle with other angles changed, same prefix, same angles in
+    another order), or repeats them exactly"""
+    k = MULTI[name]
+    fresh = lambda: rng.choice(ANGLE_POOL) if rng.chance(2, 3) else rng.rint(-3000, 3000) / 1000.0
+    if earlier and rng.chance(2, 3):
+        base = list(rng.choice(earlier))
+        mode = rng.below(5)
+        if mode == 0:                       # same first parameter, the others re-drawn
+            return [base[0]] + [fresh() for _ in range(k - 1)]
+        if mode == 1:                       # same prefix, last parameter re-drawn
+            return base[:-1] + [fresh()]
+        if mode == 2:                       # same values in another order
+            return base[1:] + base[:1]
+        if mode == 3:
+            return base[::-1]
+        return base                         # exact repetition
+    return [fresh() for _ in range(k)]
+
 BRANCHES = ["identity", "upper-phase", "lower-phase", "two-phases", "two-phases-equal", "dense", "dense-near-diagonal"]
 # tolerance per optimiser-fitted gate: the converter declares gate matrices known to min_precision_gate = 1e-4 and its
 # optimiser stops at a Frobenius distance of 1e-6; measured on the unchanged code: median 3e-9, but about one fit in 40
@@ -327,8 +363,10 @@ def canon_gates(gates):
     return out
 
 
-def rand_circuit(rng, fw, nq, ngates, max2):
+def rand_circuit(rng, fw, nq, ngates, max2, session=None):
+    """session: {gate name: [parameter lists]} of the multi-parameter generic gates the converter object has seen"""
     gates, n2 = [], 0
+    session = session if session is not None else {}
     for _ in range(ngates):
         if nq >= 2 and n2 < max2 and rng.chance(2, 5):
             a = rng.below(nq)
@@ -340,10 +378,9 @@ def rand_circuit(rng, fw, nq, ngates, max2):
             par = None
             if name == "u2":
                 par = rand_u2(rng)
-            elif name == "u":
-                par = [rng.rint(-3000, 3000) / 1000.0 for _ in range(3)]
-            elif name == "r":
-                par = [rng.rint(-3000, 3000) / 1000.0 for _ in range(2)]
+            elif name in MULTI:
+                par = rand_multi_params(rng, name, session.get(name, []))
+                session.setdefault(name, []).append(par)
             gates.append((name, [rng.below(nq)], par))
         else:
             name = rng.choice(ONE_Q[fw])
@@ -363,6 +400,10 @@ def build_source(fw, nq, gates):
             if name == "u2":
                 qc.unitary(np.array(cplx_rows(par)), qs[0])
                 continue
+            if name in ("qu2", "qu3"):
+                from qiskit.circuit.library import U2Gate, U3Gate
+                qc.append((U2Gate if name == "qu2" else U3Gate)(*par), [qs[0]])
+                continue
             args = (list(par) if isinstance(par, list) else [par] if par is not None else []) + qs
             getattr(qc, name)(*args)
         return qc
@@ -377,6 +418,9 @@ def build_source(fw, nq, gates):
             if name == "u2":
                 M = np.array(cplx_rows(par))
                 g = AbstractGate(f"G{k}", [], arity=1, matrix_generator=lambda M=M: M)()
+            elif name == "ug":
+                g = AbstractGate("UG", [float, float, float], arity=1,
+                                 matrix_generator=lambda a, b, c: np.array(gate_matrix("u", [a, b, c])))(*[float(x) for x in par])
             else:
                 g = ptab[name](par) if name in ptab else tab[name]
             pr.apply(g, *[q[i] for i in qs])
@@ -390,10 +434,14 @@ def build_source(fw, nq, gates):
     return "\n".join(lines) + "\n"
 
 
-def convert(fw, src, ups):
+def new_converter(fw):
     from perceval.converters import QiskitConverter, MyQLMConverter, CQASMConverter
-    conv = {"qiskit": QiskitConverter, "myqlm": MyQLMConverter, "cqasm": CQASMConverter}[fw]()
-    return conv.convert(src, use_postselection=ups)
+    return {"qiskit": QiskitConverter, "myqlm": MyQLMConverter, "cqasm": CQASMConverter}[fw]()
+
+
+def convert(fw, src, ups, conv=None):
+    """conv: a converter object that already converted other circuits (None = a fresh one)"""
+    return (conv or new_converter(fw)).convert(src, use_postselection=ups)
 
 
 def cost(q, n):
@@ -427,7 +475,7 @@ def slos_feasible(m, n):
     return n <= 10 and math.comb(m + n - 1, n) <= 400000
 
 
-def evaluate(ctx, fw, nq, gates, ups, leak_budget=2e5, budget=None):
+def evaluate(ctx, fw, nq, gates, ups, leak_budget=2e5, budget=None, conv=None):
     """-> (signature or None, details). Runs the real converter; the logical action goes through the exact model when
     the request fits the budget (bounded BEFORE it is sent, from qubits and photons), otherwise through the cheaper
     per-instance route: model for the heralds/post-selection of logical states, the implementation's own SLOS
@@ -437,7 +485,7 @@ def evaluate(ctx, fw, nq, gates, ups, leak_budget=2e5, budget=None):
     budget = budget or SHRINK_BUDGET
     src = build_source(fw, nq, gates)
     try:
-        p = convert(fw, src, ups)
+        p = convert(fw, src, ups, conv)
     except Exception as e:
         return f"converter-exception-{fw}-{type(e).__name__}", {"error": repr(e)[:300]}
     m = p.circuit_size
@@ -535,6 +583,151 @@ def shrink(ctx, fw, nq, gates, ups, sig, max_evals=40):
     return gates
 
 
+def fails_after(ctx, fw, history, nq, gates, ups):
+    """does a NEW converter object that first converts the circuits of `history` convert (nq, gates) wrongly?"""
+    conv = new_converter(fw)
+    for hq, hg, hu in history:
+        try:
+            conv.convert(build_source(fw, hq, hg), use_postselection=hu)
+        except Exception:
+            pass
+    return evaluate(ctx, fw, nq, gates, ups, leak_budget=0, conv=conv)[0] is not None
+
+
+def shrink_history(ctx, fw, history, nq, gates, ups, max_evals=60):
+    """smallest (earlier circuits, circuit) such that the circuit is converted wrongly only after the earlier ones"""
+    evals = 0
+    hist = list(history)
+    names = {nm for nm, _, _ in gates if nm in GENERIC_NAMES}
+    order = sorted(range(len(hist)), key=lambda i: (not (names & {nm for nm, _, _ in hist[i][1]}), -i))
+    for i in order[:25]:
+        evals += 1
+        if fails_after(ctx, fw, [hist[i]], nq, gates, ups):
+            hist = [hist[i]]
+            break
+    else:
+        if not fails_after(ctx, fw, hist, nq, gates, ups):
+            return None, gates            # not reproducible from the conversions alone
+    gates = list(gates)
+    changed = True
+    while changed and evals < max_evals:
+        changed = False
+        for k in range(len(hist)):
+            hq, hg, hu = hist[k]
+            for i in range(len(hg)):
+                if len(hg) <= 1:
+                    break
+                evals += 1
+                h2 = hist[:k] + [(hq, hg[:i] + hg[i + 1:], hu)] + hist[k + 1:]
+                if fails_after(ctx, fw, h2, nq, gates, ups):
+                    hist, changed = h2, True
+                    break
+            if changed:
+                break
+        if changed:
+            continue
+        for i in range(len(gates)):
+            if len(gates) <= 1:
+                break
+            evals += 1
+            g2 = gates[:i] + gates[i + 1:]
+            if fails_after(ctx, fw, hist, nq, g2, ups) and evaluate(ctx, fw, nq, g2, ups, leak_budget=0)[0] is None:
+                gates, changed = g2, True
+                break
+    return hist, gates
+
+
+# ------------------------------------------------------------------ catalog histories: build, modify in place, build again
+INPLACE_OPS = ["circuit.inverse(h)", "circuit.inverse(v)", "circuit.parameters+0.37", "circuit.add(PS)", "leaves.inverse(h)",
+               "processor.components.inverse(h)", "processor.components.parameters+0.37", "processor.add(PS)"]
+
+
+def circuit_leaves(c):
+    return [comp for _, comp in c]
+
+
+def bump_parameters(circ):
+    n = 0
+    for comp in circuit_leaves(circ):
+        for prm in comp.get_parameters(all_params=True):
+            try:
+                prm.set_value(float(prm) + 0.37)
+                n += 1
+            except Exception:
+                pass
+    return n
+
+
+def modify_in_place(item, kw, op):
+    """build the item and modify what was built, in place; returns the modified objects (kept alive for identity checks)"""
+    from perceval.components import PS
+    if op.startswith("processor") :
+        p = item.build_processor(**kw)
+        comps = [c for _, c in p.components]
+        if op == "processor.components.inverse(h)":
+            for c in comps:
+                c.inverse(h=True)
+        elif op == "processor.components.parameters+0.37":
+            for c in comps:
+                bump_parameters(c) if c.is_composite() else None
+        else:
+            p.add(0, PS(0.3))
+        return [l for c in comps for l in (circuit_leaves(c) if c.is_composite() else [c])]
+    c = item.build_circuit(**kw)
+    if op == "circuit.inverse(h)":
+        c.inverse(h=True)
+    elif op == "circuit.inverse(v)":
+        c.inverse(v=True)
+    elif op == "circuit.parameters+0.37":
+        bump_parameters(c)
+    elif op == "circuit.add(PS)":
+        c.add(0, PS(0.3))
+    else:
+        for l in circuit_leaves(c):
+            try:
+                l.inverse(h=True)
+            except NotImplementedError:
+                pass
+    return circuit_leaves(c)
+
+
+def catalog_history_stream(ctx, expected):
+    """expected: [(catalog name, kwargs, unitary the gate's model prescribes)].  For every item and every in-place
+    modification of something the item built: the NEXT build (circuit and processor) still has the model's unitary, and
+    no leaf component object of one build is handed out again by another."""
+    from perceval.components import catalog
+    n = 0
+    for name, kw, U in expected:
+        item = catalog[name]
+        a, b = circuit_leaves(item.build_circuit(**kw)), circuit_leaves(item.build_circuit(**kw))
+        case = {"item": name, "kwargs": {k: v for k, v in kw.items()}}
+        if any(x is y for x in a for y in b):
+            ctx.fail("catalog-builds-share-a-component", "two builds of a catalog item contain the same component object",
+                     dict(case, shared=[type(x).__name__ for x in a for y in b if x is y]))
+        for op in INPLACE_OPS:
+            n += 1
+            ctx.count("catalog-history." + op)
+            try:
+                modified = modify_in_place(item, kw, op)
+            except Exception as e:
+                ctx.count("catalog-history.operation-not-applicable")
+                continue
+            c2 = item.build_circuit(**kw)
+            U2 = np_rows(c2.compute_unitary())
+            U3 = np_rows(item.build_processor(**kw).linear_circuit().compute_unitary())
+            cs = dict(case, history=["build", op, "build again"])
+            ctx.case(["catalog-history", name, sorted(kw.items()), op], True, cs)
+            if not (mat_close(U2, U, 1e-9) and mat_close(U3, U, 1e-9)):
+                ctx.fail("catalog-rebuild-changed-after-inplace-modification",
+                         "a catalog item builds a different gate after something it built earlier was modified in place",
+                         cs, expected=str(U), observed=str(U2 if not mat_close(U2, U, 1e-9) else U3))
+                break       # the catalog is polluted from here on: one report per item
+            if any(x is y for x in modified for y in circuit_leaves(c2)):
+                ctx.fail("catalog-builds-share-a-component", "a new build hands out a component object of an earlier build", cs)
+                break
+    return n
+
+
 def show(fw, nq, gates, ups):
     return {"framework": fw, "qubits": nq, "use_postselection": ups,
             "gates": [[nm, qs] + ([par] if par is not None else []) for nm, qs, par in gates]}
@@ -548,6 +741,7 @@ def run(ctx):
     rng = ctx.rng
 
     # ---------------------------------------------------------------- 1a. fixed gates: complete comparison of constants
+    expected = []      # (name, kwargs, model unitary) for the catalog-history stream at the end
     outs = ctx.model.run([(2000, gid) for _, gid in FIXED], jobs=1, timeout=600)
     for (name, gid), out in zip(FIXED, outs):
         m, q, her, pst, gens, Uc, fc, Gc, Ac, verdict = out
@@ -559,6 +753,7 @@ def run(ctx):
         case = {"gate": name, "modes": m, "qubits": q, "factor": [f.real, f.imag], "success_probability": abs(f) ** 2}
         ctx.case(["fixed", name], True, case)
         ctx.count("fixed-gate")
+        expected.append((name, {}, U))
         item = catalog[name]
         Ui = np_rows(item.build_circuit().compute_unitary())
         p = item.build_processor()
@@ -602,6 +797,8 @@ def run(ctx):
         ctx.case(["param", name, a.key()], a.cos not in (0, 1, -1), case)
         ctx.count("param." + name)
         kw = {"phi": angle} if kind == 3 else {"theta": angle}
+        if a.cos not in (0, 1, -1) and sum(1 for e in expected if e[0] == name) < 2:
+            expected.append((name, kw, U))
         Ui = np_rows(catalog[name].build_circuit(**kw).compute_unitary())
         Up = np_rows(catalog[name].build_processor(**kw).linear_circuit().compute_unitary())
         if not (mat_close(U, Ui, 1e-9) and mat_close(Up, Ui, 1e-9) and mat_close(At, G, 1e-12) and mat_close(Ui, G, 1e-9)):
@@ -623,6 +820,8 @@ def run(ctx):
         pst = ps_tree(str(p.post_select_fn))
         items.append((p.circuit_size, U, her, pst, n))
         metas.append((name, n, al, p, U))
+        if n <= 3 and sum(1 for e in expected if e[0] == name) < 2:
+            expected.append((name, kw, U))      # judged below through the model's logical action
     res = model_logical(ctx, items, True, timeout=900)
     blocks = ctx.model.run([(2003, [n, QI(0, 0)]) for _, n, _, _, _ in metas], jobs=1)
     for (name, n, al, p, U), (A, passes, leaks), blk in zip(metas, res, blocks):
@@ -681,18 +880,37 @@ def run(ctx):
         for kind in ("two-phases", "lower-phase", "dense"):
             fixed_cases.append((fw, 2, [("h", [0], None), ("u2", [0], rand_u2(rng, kind)), ("cx", [0, 1], None),
                                         ("u2", [1], rand_u2(rng, kind)), ("h", [1], None)], rng.chance(1, 2)))
+    fixed_cases = [c + (False,) for c in fixed_cases]
+    # multi-parameter gates outside the catalog that share some but not all parameters: in one circuit, and in two
+    # circuits converted one after the other by the SAME converter object (last field: reuse the session's converter)
+    for fw, nm in [("qiskit", "u"), ("qiskit", "r"), ("qiskit", "qu3"), ("qiskit", "qu2"), ("myqlm", "ug")]:
+        if fw not in avail:
+            continue
+        p1 = [rng.choice(ANGLE_POOL[1:]) for _ in range(MULTI[nm])]
+        p2 = [p1[0]] + [rng.choice([a for a in ANGLE_POOL if abs(a - x) > 1e-9]) for x in p1[1:]]
+        p3 = p1[1:] + p1[:1] if p1[1:] + p1[:1] != p1 else p1[:-1] + [p1[-1] + 0.4]
+        fixed_cases.append((fw, 1, [(nm, [0], p1), ("h", [0], None), (nm, [0], p2), (nm, [0], p3)], True, False))
+        fixed_cases.append((fw, 1, [("h", [0], None), (nm, [0], p1)], True, True))
+        fixed_cases.append((fw, 2, [(nm, [1], p2), ("h", [1], None), (nm, [0], p3)], True, True))
     import time
     n_rand = ctx.n(96, 500)
     # exact-model budget: per request, in total, runner timeout per request, wall-clock deadline for exact requests
     budget = Budget(3e6, 4e7, 60, time.time() + 75) if ctx.quick() else Budget(2.5e7, 3e8, 600, time.time() + 2400)
     cases = list(fixed_cases)
     tries = 0
+    sessions = {}
+    for fw, _, gates, _, reuse in fixed_cases:
+        if reuse:
+            for nm, _, par in gates:
+                if nm in MULTI:
+                    sessions.setdefault(fw, {}).setdefault(nm, []).append(par)
     while len(cases) < len(fixed_cases) + n_rand and avail and tries < 50 * n_rand:
         tries += 1
         fw = avail[len(cases) % len(avail)]
         nq = rng.choice([2, 3, 3, 3, 4])
         ups = rng.chance(1, 2)
-        gates = rand_circuit(rng, fw, nq, rng.rint(2, 8), max2=3)
+        reuse = rng.chance(1, 2)       # converted by the session's converter object (one per framework) or a fresh one
+        gates = rand_circuit(rng, fw, nq, rng.rint(2, 8), max2=3, session=(sessions.setdefault(fw, {}) if reuse else None))
         # predicted photon number (heralded gates carry two ancilla photons each; since 8dc2ac38 every CNOT is
         # heralded as soon as a CZ or SWAP is present): beyond the SLOS route nothing could be checked
         names = {nm for nm, _, _ in gates}
@@ -701,17 +919,30 @@ def run(ctx):
         if nq + 2 * n2h > (9 if ctx.quick() else 10):
             ctx.count("generated-but-too-large")
             continue
-        cases.append((fw, nq, gates, ups))
+        cases.append((fw, nq, gates, ups, reuse))
     second_oracle = 0
-    for fw, nq, gates, ups in cases:
+    conv_obj, conv_hist = {}, {}
+    for fw, nq, gates, ups, reuse in cases:
         nontriv = any(len(qs) == 2 or nm in ("h", "rx", "ry", "x", "y", "x90", "mx90", "y90", "my90") or
                       (nm in GENERIC_NAMES and generic_branch(nm, par) != "identity") for nm, qs, par in gates)
         for nm, _, par in gates:
             if nm in GENERIC_NAMES:
                 ctx.count("conv.generic." + generic_branch(nm, par))
-        sig, info = evaluate(ctx, fw, nq, gates, ups, budget=budget)
+        shared = [nm for nm, _, par in gates if nm in MULTI and any(
+            p2 != par and (p2[0] == par[0] or sorted(p2) == sorted(par))
+            for n2, _, p2 in (list(gates) + [g for h in (conv_hist.get(fw, []) if reuse else []) for g in h[1]]) if n2 == nm)]
+        if shared:
+            ctx.count("conv.multi-parameter-gates-sharing-parameters" + (".across-conversions" if reuse else ""))
+        conv = None
+        if reuse:
+            if fw not in conv_obj:
+                conv_obj[fw] = new_converter(fw)
+            conv = conv_obj[fw]
+            ctx.count("conv.converter-object-reused")
+        sig, info = evaluate(ctx, fw, nq, gates, ups, budget=budget, conv=conv)
         case = dict(show(fw, nq, gates, ups), **{k: (v if not isinstance(v, dict) else str(v)) for k, v in info.items()})
-        ctx.case(["conv", fw, nq, [[nm, qs, par] for nm, qs, par in gates], ups], nontriv, case)
+        case["converter_object"] = "reused (%d earlier conversions)" % len(conv_hist.get(fw, [])) if reuse else "fresh"
+        ctx.case(["conv", fw, nq, [[nm, qs, par] for nm, qs, par in gates], ups, reuse], nontriv, case)
         ctx.count(f"conv.{fw}.ups={ups}")
         ctx.count(f"conv.qubits={nq}")
         if any(len(qs) == 2 and abs(qs[0] - qs[1]) > 1 for _, qs, _ in gates):
@@ -725,13 +956,26 @@ def run(ctx):
             if np.abs(Uq - src_unitary(nq, canon_gates(gates))).max() > 1e-9:
                 ctx.fail("source-semantics-oracle", "driver's gate-list simulator disagrees with qiskit's Operator (harness bug)",
                          case)
-        if sig:
+        if sig and reuse and evaluate(ctx, fw, nq, gates, ups, leak_budget=0)[0] is None:
+            # a fresh converter converts the same circuit correctly: the object's history matters
+            h2, g2 = shrink_history(ctx, fw, conv_hist.get(fw, []), nq, gates, ups)
+            ctx.fail("converter-object-reuse-changes-conversion",
+                     "a converter object that converted other circuits before converts this one wrongly (a fresh one does not)",
+                     dict(show(fw, nq, g2, ups), earlier_conversions=[show(fw, a, b, c) for a, b, c in (h2 or conv_hist.get(fw, []))],
+                          reproducible_from_conversions_alone=h2 is not None, first_signature=sig),
+                     expected="the conversion does not depend on what the object converted before",
+                     observed=str({k: info.get(k) for k in ("deviation", "factor", "logical_states_rejected")}))
+            conv_obj.pop(fw, None)
+            conv_hist[fw] = []
+        elif sig:
             g2 = shrink(ctx, fw, nq, gates, ups, sig)
             _, info2 = evaluate(ctx, fw, nq, g2, ups, leak_budget=0)
             ctx.fail(sig, "converted processor does not act as the source unitary on the logical basis",
                      dict(show(fw, nq, g2, ups), **{k: str(v) for k, v in info2.items()}),
                      expected="every logical state passes heralds+post-selection and A = lam * U_source",
                      observed=str({k: info2.get(k) for k in ("postselect", "heralds", "logical_states_rejected", "deviation", "factor", "leaks")}))
+        if reuse and fw in conv_obj:
+            conv_hist.setdefault(fw, []).append((nq, gates, ups))
     ctx.streams["converters: " + ", ".join(avail)] = len(cases)
     ctx.log(f"{len(cases)} converted circuits validated (exact-model cost spent {budget.spent:.3g} of {budget.total:.3g})")
     ctx.hist["conv.exact-cost-spent"] = int(budget.spent)
@@ -746,6 +990,10 @@ def run(ctx):
     ctx.count("vm_compute-crosscheck", len(small))
     if a != b:
         ctx.fail("extraction-vs-vm_compute", "extracted model and vm_compute disagree", {"requests": str(small)[:500]})
+
+    # ---------------------------------------------------------------- catalog histories (last: a leaking item pollutes the catalog)
+    ctx.streams["catalog histories: build, modify in place, build again"] = catalog_history_stream(ctx, expected)
+    ctx.log("catalog histories done")
     ctx.exhaustive = False
 
 
@@ -753,8 +1001,23 @@ def replay(ctx, case):
     import json
     print(json.dumps(case, indent=1, default=str))
     c = case.get("case", case)
+    un = lambda gl: [(g[0], g[1], g[2] if len(g) > 2 else None) for g in gl]
+    if "history" in c and "item" in c:
+        from perceval.components import catalog
+        import numpy as np
+        item, kw = catalog[c["item"]], c.get("kwargs", {})
+        before = np.array(item.build_circuit(**kw).compute_unitary())
+        modify_in_place(item, kw, c["history"][1])
+        after = np.array(item.build_circuit(**kw).compute_unitary())
+        print("max |second build - first build| =", float(np.abs(after - before).max()))
+        return
+    if "earlier_conversions" in c:
+        hist = [(h["qubits"], un(h["gates"]), h["use_postselection"]) for h in c["earlier_conversions"]]
+        print("fresh converter:", evaluate(ctx, c["framework"], c["qubits"], un(c["gates"]), c["use_postselection"])[0])
+        print("after the earlier conversions: fails =", fails_after(ctx, c["framework"], hist, c["qubits"], un(c["gates"]), c["use_postselection"]))
+        return
     if "framework" in c:
-        gates = [(g[0], g[1], g[2] if len(g) > 2 else None) for g in c["gates"]]
+        gates = un(c["gates"])
         sig, info = evaluate(ctx, c["framework"], c["qubits"], gates, c["use_postselection"])
         print("signature:", sig)
         print(info)
